@@ -37,6 +37,16 @@ PROPS = {
         "assumptions": ["'number of lines in the input' is read as 1 + number of newline bytes (the loosest reading)", "a match with MatchType=Name=Copyright is a pseudo-match unless the corpus really holds such a document"],
         "parts": [part("v2in", "TestVerif_C03", "well-formed", 1600, 24000, shards=(12, 16))],
     },
+    "C04": {
+        "rule": "four generated experiments with one oracle (bit-identical Results in identical order): call histories against a pristine reference, corpus rebuilt in permuted order / with unrelated documents / as a second instance, caller's byte slices (incl. spare capacity) unchanged, and repeated matching of tie-prone inputs within a process and across separate processes (digest comparison)",
+        "assumptions": ["'unrelated' documents share no word with the input (verified per case)"],
+        "parts": [
+            part("v2in", "TestVerif_C04_History", "history", 240, 3000, shards=(12, 16)),
+            part("v2in", "TestVerif_C04_Rebuild", "rebuild", 360, 6000, shards=(12, 16)),
+            part("v2in", "TestVerif_C04_CallerBytes", "caller-bytes", 400, 8000, shards=(4, 8)),
+            part("v2in", "TestVerif_C04_Repeat", "repeat", 0, 0, shards=(4, 8), enum=True, compare_digest=True),
+        ],
+    },
     "C07": {
         "rule": "metamorphic: Match(P+X+S) equals Match(X) shifted by |P| tokens and lines(P) lines, for generated X (exact, noisy, truncated, multi-license) and OOV blocks P, S; premise verified at token level; non-trivial = Match(X) non-empty and |P| > 0",
         "assumptions": ["tied matches are compared in canonical order (their relative order is C04's subject)"],
@@ -76,6 +86,11 @@ MANIFEST_TEXT = {
         "level": "Generated-input search with a validity predicate: the statement's well-formedness conditions are evaluated on every result for arbitrary/hostile inputs, thresholds across (0,1] and corpora with awkward names. Bounded exploration.",
         "note": _V2NOTE,
         "technique": "property-based testing (rapid) with a validity-predicate oracle",
+    },
+    "C04": {
+        "level": "Generated call histories (model-based: reference results from a pristine classifier), corpus permutations/supersets, caller-buffer snapshots and repeated/cross-process matching of tie-prone inputs, all with the oracle 'bit-identical ordered Results'. Found the tie-order defect F1 (fixed). Bounded exploration; separate processes vary Go's map seeds.",
+        "note": _V2NOTE + " Cross-process comparison assumes the deterministic batch is identical in every process (it is a pure function of the tree).",
+        "technique": "stateful property-based testing against a pristine reference + metamorphic corpus permutation + cross-process digest comparison",
     },
     "C07": {
         "level": "Metamorphic property testing: thousands of (X, prefix, suffix) triples; Match(P+X+S) must equal Match(X) shifted, for exact, noisy, truncated and multi-license X; the premise is verified at token level so no case relies on hopeful construction. Bounded exploration.",
